@@ -163,6 +163,56 @@ theorem restoreDir_writeDir (fs0 fs : Entry) (q : Path) (n : Name) (id : Bytes)
     simp only [treeMsg] at hb ⊢
     simp only [hb, hset]
 
+/-- **End to end**: restore from the very CAS that `writeDir` returned. `cas0` is any CAS that agrees with the new blobs on
+    their digests (true for a content-addressed CAS — C07's invariant — when the hash is collision free on the contents involved):
+    existing digests are skipped by `Cas.Write`, the rest is appended, and the restore of the result from any prior state
+    yields the cached listing. -/
+theorem restoreDir_after_writeDir (fs0 fs : Entry) (q : Path) (n : Name) (id : Bytes)
+    (es : List (Name × Entry)) (cas0 : Cas) (fuel : Nat)
+    (hsrc : fs0.get (q ++ [n]) = some (.dir es))
+    (hwf : (Entry.dir es).WF)
+    (hfuel : depthList es < fuel)
+    (hserD : InjOnKids H serD serD es)
+    (hdeT : deT (serT (treeMsg H serD es)) = some (treeMsg H serD es))
+    (hcf : CollisionFree H (streams H serD serT es))
+    (hag : Agrees cas0 ((encList H serD es).ups ++ [(H (serT (treeMsg H serD es)), serT (treeMsg H serD es))]))
+    (hpar : Clear fs q)
+    (hprior : ∀ es', fs.get (q ++ [n]) = some (.dir es') →
+      (Entry.dir es').WF ∧ InjOnKids H serD serD es' ∧
+      (serT (treeMsg H serD es') = serT (treeMsg H serD es) → treeMsg H serD es' = treeMsg H serD es) ∧
+      CollisionFree H (streams H serD serT es ++ streams H serD serT es')) :
+    ∃ out cas1, writeDir H serD serT fs0 (q ++ [n]) id cas0 = .ok (out, cas1) ∧
+      ∃ fs', restoreDir H serD serT deT fuel (H (serT (treeMsg H serD es))) cas1 fs (q ++ [n]) = .ok fs' ∧
+        ∃ r, fs'.get (q ++ [n]) = some r ∧ r.Same (.dir es) := by
+  obtain ⟨total, cas1, hw, hres⟩ := restoreDir_writeDir H serD serT deT fs0 fs q n id es cas0 fuel hsrc hwf hfuel hserD hdeT hcf hpar hprior
+  refine ⟨_, cas1, hw, ?_⟩
+  -- identify cas1
+  have hc1 : cas1 = writeBlobs cas0 ((encList H serD es).ups ++ [(H (serT (treeMsg H serD es)), serT (treeMsg H serD es))]) := by
+    have happ : ∀ (l : List (Digest × Bytes)) (c : Cas) (x : Digest × Bytes), writeBlobs c (l ++ [x]) = (writeBlobs c l).write x.1 x.2 := by
+      intro l
+      induction l with
+      | nil => intro c x; simp [writeBlobs]
+      | cons h t ih => intro c x; obtain ⟨d, b⟩ := h; simp [writeBlobs, ih]
+    simp only [writeDir, hsrc, Except.ok.injEq, Prod.mk.injEq] at hw
+    rw [happ]; exact hw.2.symm
+  have hcons : ∀ u ∈ (encList H serD es).ups ++ [(H (serT (treeMsg H serD es)), serT (treeMsg H serD es))],
+      ∀ w ∈ (encList H serD es).ups ++ [(H (serT (treeMsg H serD es)), serT (treeMsg H serD es))], u.1 = w.1 → u.2 = w.2 := by
+    have form : ∀ u ∈ (encList H serD es).ups ++ [(H (serT (treeMsg H serD es)), serT (treeMsg H serD es))],
+        u.1 = H u.2 ∧ u.2 ∈ streams H serD serT es := by
+      intro u hu
+      simp only [List.mem_append, List.mem_singleton] at hu
+      rcases hu with hu | rfl
+      · exact ⟨ups_form H serD es u hu, by simp only [streams, List.mem_append, List.mem_map]; exact Or.inl (Or.inl ⟨u, hu, rfl⟩)⟩
+      · exact ⟨rfl, by simp [streams]⟩
+    intro u hu w hw' huw
+    obtain ⟨fu, su⟩ := form u hu
+    obtain ⟨fw, sw⟩ := form w hw'
+    exact hcf _ su _ sw (by rw [← fu, ← fw, huw])
+  obtain ⟨hget, _⟩ := writeBlobs_get _ cas0 hag hcons
+  apply hres cas1
+  · intro u hu; rw [hc1]; exact hget u (by simp [hu])
+  · rw [hc1]; exact hget (H (serT (treeMsg H serD es)), serT (treeMsg H serD es)) (by simp)
+
 end Dir
 
 /-! toy (but, on the trees below, injective) marshalling functions for the satisfiability example -/
